@@ -147,9 +147,24 @@ def _cross(case):
                 c.eq(site + "/force/value", vf, -M.T @ f, 1e-9, nv * nf)
     if vm is not None and vf is not None:
         c.eq("duality", float(np.dot(vf, m)), -float(np.dot(f, vm)), 1e-9, nv * nm * nf)
+    # an object whose value is replaced must use its new value (nothing stale from the earlier call)
+    v2 = v[::-1].copy() + 0.5
+    ok, R = c.lib("cross/reused", lambda: _reused_cross(v, v2, m))
+    if ok:
+        val = _vals(c, "cross/reused", R, "SpatialAcceleration", 1)
+        if val is not None:
+            c.eq("cross/reused/value", val[0], _crm(v2) @ m, 1e-9, max(float(np.max(np.abs(v2))), 1e-300) * nm)
     # a velocity crossed with something that is not a spatial vector is rejected
     c.must_raise("cross/array", lambda: V.cross(m.copy()))
     return c.out
+
+
+def _reused_cross(v, v2, m):
+    V = L.SpatialVelocity(v.copy())
+    Mo = L.SpatialVelocity(m.copy())
+    V.cross(Mo)
+    V[0] = L.SpatialVelocity(v2.copy())
+    return V.cross(Mo)
 
 
 def _spd(a9, eps):
@@ -171,12 +186,21 @@ def _inertia(case):
     mass, cv = case["mass"], arr(case["c"])
     I3 = np.zeros((3, 3)) if case["noI"] else _spd(case["A"], case["eps"])
     c = Checker("inertia", mass=mass, noI=case["noI"])
+    Jarg = I3.copy()
+    carg = np.array(case["c"], dtype=float)
     if case["noI"]:
-        ok, SI = c.lib("ctor", L.SpatialInertia, mass, list(case["c"]))
+        ok, SI = c.lib("ctor", L.SpatialInertia, mass, carg)
     else:
-        ok, SI = c.lib("ctor", L.SpatialInertia, mass, list(case["c"]), I3.copy())
+        ok, SI = c.lib("ctor", L.SpatialInertia, mass, carg, Jarg)
     if not ok:
         return c.out
+    c.eq("ctor/argument_I_untouched", Jarg, I3, 0)
+    c.eq("ctor/argument_c_untouched", carg, cv, 0)
+    if not case["noI"]:
+        # a second body built from the same inertia array gets the same matrix
+        ok2, SIb = c.lib("ctor/again", L.SpatialInertia, mass, carg, Jarg)
+        if ok2:
+            c.eq("ctor/again/value", SIb.A, _pa(mass, cv, I3), 1e-9, max(1e-300, float(np.max(np.abs(_pa(mass, cv, I3))))))
     want = _pa(mass, cv, I3)
     sc = max(1e-300, float(np.max(np.abs(want))))
     if not c.true("ctor/type", type(SI) is L.SpatialInertia and len(SI) == 1, "SpatialInertia ctor gave %r" % type(SI)):
